@@ -24,7 +24,7 @@ ASSUMPTIONS = [
     'read bits (_rbits_), setdata.count / is_fully_loaded / absent and the None-vs-empty distinction of setdata.added/removed are not modelled',
     'commit is modelled only as session bookkeeping and only on states no known-bad failure has touched',
 ]
-RULE = ('histories = hand-minimised scenario histories (6 known-bad, 17 clean) + every injected fault (site x k) on their last call + seeded random histories over '
+RULE = ('histories = hand-minimised scenario histories (23, all clean since the repairs) + every injected fault (site x k) on their last call + seeded random histories over '
         '3 schemas (populate a hub and its dependents, then mostly doomed modifications, commits, injected faults), each stopped at the first raising call '
         'that changes the snapshot; non-trivial = the history contains at least one raising modification; distinct = distinct canonical (schema, op list)')
 
@@ -257,11 +257,11 @@ def replay(ctx, data):
 
 LEVEL_TEXT = ('Machine-checked proof (Coq 8.16.1), for every schema, every session state, every top-level modification and every injected fault, that a call which '
               'raises leaves every observable location of the session (values, both sides of collections with pending added/removed, index lookups, statuses, '
-              'write bits, objects_to_save, modified_collections) unchanged - on the exact complement of six named code sites (five recorded findings + an unreached inconsistent-shape marker) of core.py that mutate without a '
-              '(correct) undo, each refuted by a vm_compute witness and reproduced on real Pony on every run. The model (undo closures as data) is compared '
-              'with real Pony + SQLite on scenario, fault-enumeration and random histories on every run, including the exact corrupted states.')
+              'write bits, objects_to_save, modified_collections) unchanged - for every run that stays in the shapes the code itself asserts (the eight code sites that used to mutate without a correct undo were '
+              'repaired in /repo and are gone from the model; no open finding). The model (undo closures as data) is compared '
+              'with real Pony + SQLite on scenario, fault-enumeration and random histories on every run, with every injected fault on 23 scenario histories.')
 LEVEL_NOTE = ('Trusted: Coq kernel + vm_compute; the hand-written model and its correspondence harness (one db_session, everything loaded, <= 8 objects per history). '
-              'known_bad is defined by the run itself (a forgetful site was executed and visibly changed something), not by a syntactic class of calls; C13_sites_complete: the sites are the five recorded ones plus TInconsistent (state not in the shape the code asserts; not shown unreachable). '
+              'known_bad is defined by the run itself: the only mark left is TInconsistent (a dictionary / queue not in the shape the code asserts; C13_sites_complete; never produced on any generated history, but not shown unreachable - that needs the invariants of C11/C12). '
               '"A later commit writes nothing" follows only through equality of the observed state; commit itself is modelled as bookkeeping (SQL: C15/C16).')
-TECHNIQUE = 'Coq proof of an undo-log discipline (restoring monad, closures as data, commutation of safe closures) + vm_compute correspondence on histories + fault enumeration + property-oracle search'
+TECHNIQUE = 'Coq proof of an undo-log discipline (restoring monad, closures as data, LIFO blocks) + vm_compute correspondence on histories + fault enumeration + property-oracle search'
 DESIGN_REF = 'DESIGN.md section 5, C13; Appendix A'
